@@ -83,7 +83,25 @@ Value& POWExpression::value(Context & ctx) const
     {
       if (a2.isNull() || a1.isNull())
         return LVAL2(Value(Value::type_integer), a1, a2);
-      Value val(Integer(std::pow(*a1.integer(), *a2.integer())));
+      /* as operator **: exact modulo 2^64 (pow(double) loses the low bits
+       * above 2^53 and its conversion back is undefined out of range) */
+      Integer b = *a1.integer();
+      Integer e = *a2.integer();
+      if (e >= 0)
+      {
+        uint64_t r = 1, m = (uint64_t)b;
+        for (uint64_t n = (uint64_t)e; n != 0; n >>= 1)
+        {
+          if (n & 1)
+            r *= m;
+          m *= m;
+        }
+        Value val((Integer)r);
+        return LVAL2(val, a1, a2);
+      }
+      if (b == 0)
+        throw RuntimeError(EXC_RT_DIVIDE_BY_ZERO);
+      Value val(Integer(b == 1 ? 1 : b == -1 ? ((e & 1) ? -1 : 1) : 0));
       return LVAL2(val, a1, a2);
     }
     case Type::IMAGINARY:
